@@ -54,6 +54,22 @@ def oracle(ctx, case, hist, maps, spec):
                 if sorted(exp_stored) != sorted(st['stored']):
                     ctx.fail('chain.force(delete_data) did not remove exactly the stored results of the forced tasks', case, {'op': op})
                 pending_forced |= set(F)
+            elif op.get('failing'):
+                # a run raises during the recomputation: force() ends with that exception; what was forced stays forced or was
+                # recomputed (once), and with delete_data no forced task keeps a stored result it did not just recompute
+                for x, t in F.items():
+                    if runs.count(x) > 1:
+                        ctx.fail('a task ran more than once within one recomputation', case, {'op': op, 'task': t.fullname})
+                    done = any(d[0] == x for d in r.get('done', []))
+                    lk = (str(t.path), t.name_for_persistence)
+                    redone_elsewhere = any(objs.get(d[0]) is not None and (str(objs[d[0]].path), objs[d[0]].name_for_persistence) == lk for d in r.get('done', []))
+                    if op['del'] and persisting(t) and not done and not redone_elsewhere and lk in st['stored']:
+                        ctx.fail('chain.force(delete_data=True, recompute=True) that failed midway left the old stored result of a forced task', case,
+                                 {'op': op, 'task': t.fullname})
+                    if not done and x not in st['forced']:
+                        ctx.fail('a forced task that was not recomputed (the recomputation failed before) is no longer forced', case, {'op': op, 'task': t.fullname})
+                pending_forced |= {x for x in F if not any(d[0] == x for d in r.get('done', []))}
+                pending_forced -= {d[0] for d in r.get('done', [])}
             else:
                 for x in F:
                     if runs.count(x) != 1:
@@ -97,7 +113,7 @@ def oracle(ctx, case, hist, maps, spec):
 
 
 def run(ctx):
-    machine.run_batch(ctx, ctx.n(60, 800), allow={'force', 'restart'}, label='force', oracle=oracle, stamp=True)
+    machine.run_batch(ctx, ctx.n(60, 800), allow={'force', 'restart', 'fail'}, label='force', oracle=oracle, stamp=True)
 
 
 def search(ctx, divergences):
